@@ -33,6 +33,9 @@ type CNode struct {
 	dir     string
 	genesis []int
 	failed  bool // an insertion failed with a non-normal error (C13 obligation stops)
+	fs      *FaultStore
+	lostWhy string
+	lost    bool // a store fault was injected: the specification no longer tracks this node
 }
 
 func quietLogger() *logrus.Entry {
@@ -60,6 +63,11 @@ func (w *World) NewCNode(p *Part, genesis []int, peerNums []int, kind string, ca
 		panic(err)
 	}
 	n.store = st
+	if w.faults {
+		n.fs = NewFaultStore(st)
+		st = n.fs
+		n.store = st
+	}
 	n.app = NewVApp(w, p.Num)
 	n.core = node.VNewCore(node.NewValidator(p.Key, p.Peer.Moniker),
 		w.PeerSet(peerNums), w.PeerSet(genesis), st, n.app.CommitBlock, false, quietLogger())
